@@ -19,6 +19,11 @@ sys.path.insert(0, os.path.dirname(os.path.abspath(__file__)))
 import rsparse
 from rsparse import parse_items, match_delim, norm_ws, tokens, impl_header_info
 import rules
+import threading
+
+# the rules module numbers its temporaries with a module-level counter (reset per function body) and FUZZY_LOG / DETACH state is
+# module-level too: assembling is cheap, so units are assembled one at a time even when bin/check verifies them in parallel
+_ASSEMBLE_LOCK = threading.RLock()
 
 VERIF = os.path.dirname(os.path.dirname(os.path.abspath(__file__)))
 REPO = os.environ.get('VERIF_REPO', '/repo')
@@ -74,16 +79,22 @@ def expand(features=(), no_default=False, release=False):
     if p.returncode != 0 or not p.stdout.strip():
         raise Undecided('macro expansion of the working tree failed (does not compile?):\n' + p.stderr[-3000:])
     # drop stale cache entries (keep the cache bounded)
-    olds = sorted((f for f in os.listdir(CACHE) if f.startswith('expanded-')),
-                  key=lambda f: os.path.getmtime(os.path.join(CACHE, f)))
+    def _mt(f):
+        try:
+            return os.path.getmtime(os.path.join(CACHE, f))
+        except OSError:
+            return 0.0
+    # (other threads / processes may be writing their own expansion: never look at *.tmp files)
+    olds = sorted((f for f in os.listdir(CACHE) if f.startswith('expanded-') and f.endswith('.rs')), key=_mt)
     for f in olds[:-24]:
         try:
             os.remove(os.path.join(CACHE, f))
         except OSError:
             pass
-    with open(out + '.tmp', 'w') as fh:
+    tmp = '%s.%d.tmp' % (out, os.getpid())
+    with open(tmp, 'w') as fh:
         fh.write(p.stdout)
-    os.replace(out + '.tmp', out)
+    os.replace(tmp, out)
     return p.stdout, out
 
 
@@ -110,6 +121,7 @@ class FnSpec:
         self.impl_match = None
         self.may_fail = []
         self.no_panic_when = None
+        self.debug_builders = False   # R18
         self.ptr_model = []        # R17: (array expression, element type, [pointer names])
         self.concrete_ret = None   # R14: `-> impl '_ + Traits` -> the concrete type the body constructs
         self.opens = None
@@ -265,7 +277,7 @@ def parse_contract_file(path, unit=None, seen=None):
             continue
         st = ln.strip()
         m = re.match(r'^(ret|requires|ensures|decreases|loop|invariant|invariant_except_break|loop_ensures|at_start|at_end|after_loop|before_loop|loop_body_start|loop_body_end|at|attr|tags|as_inherent|'
-                     r'external_body|no_body|loop_hint|subst|impl_match|returns|opens|debug_assert_may_fail|concrete_ret|no_panic_when|ptr_model)\b\s*(.*)$', st)
+                     r'external_body|no_body|loop_hint|subst|impl_match|returns|opens|debug_assert_may_fail|concrete_ret|no_panic_when|ptr_model|debug_builders)\b\s*(.*)$', st)
         indent = len(ln) - len(ln.lstrip())
         if m and indent <= 4 or (m and m.group(1) in ('invariant', 'invariant_except_break', 'loop_ensures', 'decreases') and indent <= 8 and cur_clause is None):
             kw, rest = m.group(1), m.group(2)
@@ -348,6 +360,8 @@ def parse_contract_file(path, unit=None, seen=None):
                 cur_fn.may_fail.append(rest.strip().strip('"'))
             elif kw == 'concrete_ret':
                 cur_fn.concrete_ret = rest.strip()
+            elif kw == 'debug_builders':
+                cur_fn.debug_builders = True
             elif kw == 'ptr_model':
                 mm = re.match(r'^(\S+)\s+\[(\S+)\]\s*:\s*(.+)$', rest)
                 if not mm:
@@ -859,6 +873,12 @@ class FnAsm:
             body, c2 = re.subn(r'\b%s\.as_ref\(\)' % re.escape(nm), nm, body)
             self.log.append('R11: dropped %d `let %s = %s.as_ref();`, replaced %d inline `%s.as_ref()`' % (c1, nm, nm, c2, nm))
         if sp:
+            if sp.debug_builders:
+                try:
+                    body, dlog = rules.r18_debug_chain(body)
+                except (rules.RuleError, rsparse.ScanError) as e:
+                    raise Undecided('%s: %s' % (self.qual, e))
+                self.log += dlog
             for arr, elem, names in sp.ptr_model:
                 try:
                     body, plog = rules.ptr_model(body, arr, elem, names)
@@ -1334,7 +1354,7 @@ def assemble(unit, src, detach=None):
 
     detach = set(detach or ())
 
-    def emit_fn(f, fs, qual, in_trait_impl=False, in_trait_decl=False, extra_generics=None, assoc=None, extra_where=None):
+    def emit_fn(f, fs, qual, in_trait_impl=False, in_trait_decl=False, extra_generics=None, assoc=None, extra_where=None, self_ty=None):
         import copy
         detached_reason = None
         if fs is not None and qual in detach and not fs.external_body:
@@ -1371,12 +1391,15 @@ def assemble(unit, src, detach=None):
                 # a trait-impl method emitted as an inherent method: `Self::Assoc` no longer resolves; substitute its definition
                 for an, at in assoc.items():
                     text = re.sub(r'\bSelf::%s\b' % re.escape(an), at, text)
+            if self_ty and meta is not None and meta.get('kind') in ('signature', 'body'):
+                # a method of a trait impl on a FOREIGN type emitted as a free function: `Self` is that type
+                text = re.sub(r'\bSelf\b', self_ty, text)
             out.emit(text, meta)
         out.fn_ranges.append((start, out.line, qual, fs.tags if fs else []))
         sha = hashlib.sha256(f.src[f.header_start:f.end].encode()).hexdigest()[:16]
         log.append({'fn': qual, 'src_sha': sha, 'rules': asm.log, 'contract': fs.line if fs else None,
                     'external_body': bool(fs and fs.external_body),
-                    'emitted': (fs.as_inherent if fs and fs.as_inherent else f.name),
+                    'emitted': ((fs.as_inherent[5:] if fs.as_inherent.startswith('free:') else fs.as_inherent) if fs and fs.as_inherent else f.name),
                     'mod': cur_mod_path[0]})
 
     def emit_const(c, opts, qual, in_trait=False):
@@ -1463,6 +1486,21 @@ def assemble(unit, src, detach=None):
                     elif c.kind == 'type':
                         out.emit(norm_header(c.src[c.header_start:c.end]) + '\n')
                 out.emit('}\n')
+            free_moves = [(f, fs) for f, fs in inherent_moves if fs.as_inherent.startswith('free:')]
+            inherent_moves = [(f, fs) for f, fs in inherent_moves if not fs.as_inherent.startswith('free:')]
+            if free_moves:
+                # `as_inherent free:NAME`: the impl is on a foreign type (no inherent impl possible): the method — which must not
+                # take `self` — is emitted as a free function carrying all generics and where-predicates of the impl
+                all_g = [prm.strip() for prm in split_top(g[1:-1], ',') if prm.strip()] if g else []
+                all_w = [pred.strip() for pred in split_top(re.sub(r'^\s*where\b', '', wh or ''), ',') if pred.strip()]
+                for f, fs in free_moves:
+                    if re.search(r'\(\s*(?:&\s*(?:mut\s+)?)?self\b', f.src[f.header_start:f.body_open or f.end]):
+                        raise Undecided('%s: as_inherent free:… on a method that takes self' % f.name)
+                    import copy as _copy
+                    fs2 = _copy.copy(fs)
+                    fs2.as_inherent = fs.as_inherent[5:]
+                    qual = '%s::<%s for %s>::%s' % (mp, tr, ty, f.name)
+                    emit_fn(f, fs2, qual, extra_generics=all_g, extra_where=all_w, self_ty=ty)
             if inherent_moves:
                 # generics of the trait impl that do not occur in the self type move to the fn
                 keep_g, move_g = [], []
@@ -1532,7 +1570,8 @@ def build_unit(vc_path, out_dir, detach=None):
     if not unit.name:
         unit.name = os.path.splitext(os.path.basename(vc_path))[0]
     src, srcpath = expand(unit.features, unit.no_default)
-    out, log = assemble(unit, src, detach)
+    with _ASSEMBLE_LOCK:
+        out, log = assemble(unit, src, detach)
     os.makedirs(out_dir, exist_ok=True)
     rs = os.path.join(out_dir, unit.name + '.rs')
     with open(rs, 'w') as fh:
